@@ -241,12 +241,30 @@ def check_slots(ctx):
         ctx.violation(rule, dy, '_describe_yourself', 'missing: %s' % missing, dy.node.lineno, clause='b')
     # (c) collection and getters
     fi = m['collect_sync_methods_from_field_descriptors']
+    # every described field contributes its sync_before_pack to the before-pack list and its
+    # sync_after_unpack to the after-unpack list (never crossed)
+    lists = {'self.sync_before_pack_methods': 'sync_before_pack', 'self.sync_after_unpack_methods': 'sync_after_unpack'}
+    good, crossed, loops_over_fields = set(), [], False
+    for p in repo.walker(max_paths=ctx.max_paths).paths(fi.node, cls=pb):
+        for e in p.all_effects():
+            if e.kind == 'loop' and e.sub['iter'] is not None and canon(e.sub['iter']) == 'self.fields':
+                loops_over_fields = True
+            if e.kind == 'call' and isinstance(e.call.func, ast.Attribute) and e.call.func.attr == 'append' and len(e.call.args) == 1:
+                recv, arg = canon(e.call.func.value), e.call.args[0]
+                if recv in lists and isinstance(arg, ast.Attribute) and arg.attr in lists.values():
+                    if arg.attr == lists[recv] and canon(arg.value).endswith('.descriptor'):
+                        good.add(recv)
+                    else:
+                        crossed.append('%s.append(%s)' % (recv, canon(arg)))
     src = unparse(fi.node)
-    if 'self.sync_before_pack_methods.append(field.descriptor.sync_before_pack)' in src and 'self.sync_after_unpack_methods.append(field.descriptor.sync_after_unpack)' in src \
-            and 'for (name, field) in self.fields' in src.replace('for name, field in', 'for (name, field) in'):
+    if crossed:
+        ctx.violation('R13-hooks', fi, crossed[0], 'a hook is collected into the list of the other phase (or not taken from the field\'s descriptor)', fi.node.lineno, clause='c')
+    elif good == set(lists) and loops_over_fields:
         ctx.holds('R13-hooks', fi, 'one before-pack / after-unpack hook collected per described field', 'no described field is forgotten', fi.node.lineno, clause='c')
-    else:
+    elif not all(v in src for v in lists.values()) or not all(k.split('.', 1)[1] in src for k in lists):
         ctx.violation('R13-hooks', fi, 'collect_sync_methods_from_field_descriptors', 'hooks are not collected into the list of their own phase for every described field', fi.node.lineno, clause='c')
+    else:
+        ctx.undecided('R13-hooks', fi, 'collect_sync_methods_from_field_descriptors', 'both hook kinds and both lists are mentioned, but the rule cannot follow how the hooks reach the lists (not the append-per-field form)', fi.node.lineno, clause='c')
     fi = m['add_sync_descriptor_class_methods']
     okg = True
     for n in ast.walk(fi.node):
